@@ -336,7 +336,13 @@ def main():
         return
     out = []
     for case in payload['cases']:
-        out.append(run_case(case))
+        try:
+            out.append(run_case(case))
+        except Exception as e:  # noqa  (harness-side accident: reported as this case's failure)
+            out.append({'obs': [{'code': 98, 'data': 0, 'member': None, 'imgs': [], 'snap': None} for _ in case['loads']],
+                        'cwd': '/nowhere',
+                        'fails': [{'clause': 'crash-or-hang', 'site': 'worker', 'load': -1,
+                                   'what': 'unexpected %s in the worker: %s' % (type(e).__name__, e)}]})
     json.dump(out, sys.stdout)
 
 
